@@ -18,6 +18,7 @@ type truncCase struct {
 	Prefix     []msg  `json:"prefix,omitempty"` // delivered first (e.g. the compact block a blocktxn answers)
 	Final      msg    `json:"final"`            // the message whose payload is cut at every offset
 	Scenario   string `json:"scenario,omitempty"`
+	Peers      string `json:"peers,omitempty"`
 }
 
 func genTruncCase(g *G) truncCase {
@@ -49,6 +50,14 @@ func genTruncCase(g *G) truncCase {
 			}
 		}
 		tc.Scenario = "full_block_requested"
+		return tc
+	}
+	if cmd == "addr" && g.chance(50) {
+		tc.Peers = pick(g, []string{"full", "below"})
+		tc.Final = g.addrFresh()
+		tc.Final.Pl = hex.EncodeToString(resolve(g.e, nil, &tc.Final)) // fixed bytes, so that every cut is of the same payload
+		tc.Final.Dyn = ""
+		tc.Scenario = "peers_db_" + tc.Peers
 		return tc
 	}
 	switch cmd {
@@ -91,7 +100,7 @@ func (tc truncCase) asSeq(n int) seqCase {
 		m.Pl = hex.EncodeToString(append(append([]byte{}, full...), 0))
 		m.Kind = "extend"
 	}
-	cs := seqCase{Incoming: true, Handshake: true, Authorized: tc.Authorized}
+	cs := seqCase{Incoming: true, Handshake: true, Authorized: tc.Authorized, Peers: tc.Peers}
 	cs.Msgs = append(append([]msg{}, tc.Prefix...), m)
 	return cs
 }
